@@ -198,7 +198,9 @@ def dispatch(ctx):
         raise AnchorLost("Deliver in the inbound handler")
     for e in delivers:
         s = e.detail["sender"]
-        f = {a[2] for a in s if a[0] == "field" and a[1] == SESSION}
+        sess_ty = {x["name"]: x["ty"] for x in ctx.facts.adt(SESSION)["variants"][0]["fields"]}
+        # the collection the receiver is taken from: Session fields that hold stream senders
+        f = {a[2] for a in s if a[0] == "field" and a[1] == SESSION and "UnboundedSender<" in sess_ty.get(a[2], "")}
         calls = {a[1] for a in s if a[0] == "call"}
         keyf = {a[2] for a in s if a[0] == "field" and a[1].endswith("PublishRx")}
         ok = f == {"subscriptions"} and any(c.endswith("linear_search_by_key") for c in calls) and "subscription_identifier" in keyf
